@@ -152,3 +152,67 @@ _targets_before_purity = targets
 def targets():      # noqa: F811
     from . import purity
     return _targets_before_purity() + [purity.target_modules(["analysis/kramers_kronig/utility", "analysis/kramers_kronig/least_squares", "analysis/kramers_kronig/matrix_inversion", "analysis/kramers_kronig/cnls"], "Kramers-Kronig modules keep no state between calls")]
+
+
+
+def target_representation_choice():
+    """perform_kramers_kronig_test(num_RC > 0, admittance=None): both representations are tested and ONE result is reported -- the
+    one with the lower pseudo chi-squared, the statistic this property shows to be independent of the units; nothing else about
+    the results (their impedances, the scale of the data) takes part in the choice, so Z -> c*Z cannot flip it.  The real function
+    runs with `evaluate_log_F_ext` replaced by a stub whose results carry symbolic chi-squared values: every comparison is
+    answered both ways and the reported result must be minimal under the facts of the path.  With admittance given, the single
+    result is returned as it is; with num_RC = 0 the choice is delegated to suggest_representation."""
+    from . import dataflow as DF
+    from . import domain as D
+    from pyvc import overload as O
+    KS = "analysis/kramers_kronig/single"
+
+    def run(sess: Session):
+        paths = {"None": 0, "False": 0, "True": 0}
+        for adm in (None, False, True):
+            box = {}
+
+            class Res:
+                def __init__(self, admittance):
+                    self.__dict__["_adm"] = admittance
+                    self.__dict__["_chi"] = D.Num.var(f"pseudo_chisqr[{'Y' if admittance else 'Z'}]")
+
+                def __getattr__(self, name):
+                    if name == "pseudo_chisqr":
+                        return self._chi
+                    if name == "num_RC":
+                        return 5
+                    raise O.Unsupported(f"the choice between the representations reads result.{name}")
+            KramersKronigResult = Res
+
+            def evaluate_log_F_ext(**kw):
+                box.setdefault("calls", []).append(kw)
+                r = Res(kw["admittance"])
+                box.setdefault("made", []).append(r)
+                return [(0.0, [r], 0.0)]
+
+            def once():
+                box.clear()
+                ns = dict(D.TYPE_STUBS)
+                ns.update({"evaluate_log_F_ext": evaluate_log_F_ext, "KramersKronigResult": KramersKronigResult, "isinstance": isinstance, "len": len, "min": min, "max": max,
+                           "sorted": sorted, "all": all, "map": map, "suggest_num_RC": None, "suggest_representation": None, "DataSet": object})
+                O.load(KS, ["perform_kramers_kronig_test"], ns)
+                data = type("Data", (), {"__getattr__": lambda s_, n: (_ for _ in ()).throw(O.Unsupported(f"the choice between the representations reads data.{n}"))})()
+                return ns["perform_kramers_kronig_test"](data, test="complex", num_RC=5, admittance=adm, num_F_ext_evaluations=0)
+            for log, out, facts in DF.explore(once):
+                paths[str(adm)] += 1
+                made = box.get("made", [])
+                tag = f"[admittance={adm}]"
+                sess.check("post", [], z3.BoolVal([c["admittance"] for c in box.get("calls", [])] == ([False, True] if adm is None else [adm])), 0, label=f"{tag}the representations tested")
+                sess.check("post", [], z3.BoolVal(any(out is r for r in made)), 0, label=f"{tag}one of the test results is reported, as it is")
+                if any(out is r for r in made):
+                    sess.check("post", list(facts), z3.And(*[out._chi.e <= r._chi.e for r in made]), 0, label=f"{tag}the reported result has the lowest pseudo chi-squared")
+        sess.check("cover", [], z3.BoolVal(paths["None"] >= 2 and paths["False"] >= 1 and paths["True"] >= 1), 0, label=f"paths: {paths}")
+    return (f"{KS}:perform_kramers_kronig_test [choice of representation]", KS, "perform_kramers_kronig_test", run)
+
+
+_targets_before_choice = targets
+
+
+def targets():      # noqa: F811
+    return _targets_before_choice() + [target_representation_choice()]
